@@ -215,6 +215,36 @@ Proof.
   intro H. unfold Gen.vec_ssz_bytes_len, len_of. rewrite gen_sequence_ssz_bytes_len_eq by exact H. reflexivity.
 Qed.
 
+(** ** [SmallVec<[T; N]>] and [BTreeSet<T>] encode as the sequence of their elements (a set's in ascending order) *)
+Theorem gen_smallvec_ssz_append_eq n t vs buf :
+  (if e_is_fixed t then e_fixed_len t * llen vs <= usize_max
+   else llen vs * 4 <= usize_max /\ fits_run (append t) (llen vs * 4) [] vs) ->
+  Gen.smallvec_ssz_append n (e_is_fixed t) (e_fixed_len t) (app_of t) vs buf = Ok (append (TList t) (VList vs) buf).
+Proof.
+  intro H. unfold Gen.smallvec_ssz_append, app_of. rewrite gen_sequence_ssz_append_eq by exact H. reflexivity.
+Qed.
+Theorem gen_smallvec_ssz_bytes_len_eq n t vs :
+  (if e_is_fixed t then e_fixed_len t * llen vs <= usize_max
+   else sumN (map (bytes_len t) vs) + 4 * llen vs <= usize_max) ->
+  Gen.smallvec_ssz_bytes_len n (e_is_fixed t) (e_fixed_len t) (len_of t) vs = Ok (bytes_len (TList t) (VList vs)).
+Proof.
+  intro H. unfold Gen.smallvec_ssz_bytes_len, len_of. rewrite gen_sequence_ssz_bytes_len_eq by exact H. reflexivity.
+Qed.
+Theorem gen_btreeset_ssz_append_eq t vs buf :
+  (if e_is_fixed t then e_fixed_len t * llen vs <= usize_max
+   else llen vs * 4 <= usize_max /\ fits_run (append t) (llen vs * 4) [] vs) ->
+  Gen.btreeset_ssz_append (e_is_fixed t) (e_fixed_len t) (app_of t) vs buf = Ok (append (TSet t) (VList vs) buf).
+Proof.
+  intro H. unfold Gen.btreeset_ssz_append, app_of. rewrite gen_sequence_ssz_append_eq by exact H. reflexivity.
+Qed.
+Theorem gen_btreeset_ssz_bytes_len_eq t vs :
+  (if e_is_fixed t then e_fixed_len t * llen vs <= usize_max
+   else sumN (map (bytes_len t) vs) + 4 * llen vs <= usize_max) ->
+  Gen.btreeset_ssz_bytes_len (e_is_fixed t) (e_fixed_len t) (len_of t) vs = Ok (bytes_len (TSet t) (VList vs)).
+Proof.
+  intro H. unfold Gen.btreeset_ssz_bytes_len, len_of. rewrite gen_sequence_ssz_bytes_len_eq by exact H. reflexivity.
+Qed.
+
 Print Assumptions gen_uint_ssz_append.
 Print Assumptions gen_option_ssz_append.
 Print Assumptions gen_option_ssz_bytes_len.
@@ -222,3 +252,7 @@ Print Assumptions gen_sequence_ssz_append_eq.
 Print Assumptions gen_sequence_ssz_bytes_len_eq.
 Print Assumptions gen_vec_ssz_append_eq.
 Print Assumptions gen_vec_ssz_bytes_len_eq.
+Print Assumptions gen_smallvec_ssz_append_eq.
+Print Assumptions gen_smallvec_ssz_bytes_len_eq.
+Print Assumptions gen_btreeset_ssz_append_eq.
+Print Assumptions gen_btreeset_ssz_bytes_len_eq.
